@@ -98,31 +98,31 @@ func (e *concEng) Gen(r *Rand, thorough bool, idx int) Case {
 	}
 }
 
-// concStore records the commit order: it is called by the collection while it holds its lock.
+// concStore records the commit order: it is called by the collection while it holds its lock, with the context of
+// the call that commits — the stamp is written into that call's own record (carried by the context), so the
+// attribution is exact however long a call is preempted.
 type concStore struct {
 	counter *atomic.Int64
-	mu      sync.Mutex
-	commits map[string][]int64 // "put/typ/id/ver" → commit stamps (one per incarnation)
-	order   []string
 }
 
-func (s *concStore) Put(_ context.Context, _ resource.Type, r resource.Resource) error {
+type concCommitKey struct{}
+
+func (s *concStore) stamp(ctx context.Context) {
 	t := s.counter.Add(1)
 
-	s.mu.Lock()
-	k := fmt.Sprintf("put/%s/%s/%s", r.Metadata().Type(), r.Metadata().ID(), r.Metadata().Version())
-	s.commits[k] = append(s.commits[k], t)
-	s.mu.Unlock()
+	if rec, ok := ctx.Value(concCommitKey{}).(*int64); ok {
+		*rec = t
+	}
+}
+
+func (s *concStore) Put(ctx context.Context, _ resource.Type, _ resource.Resource) error {
+	s.stamp(ctx)
 
 	return nil
 }
 
-func (s *concStore) Destroy(_ context.Context, typ resource.Type, p resource.Pointer) error {
-	t := s.counter.Add(1)
-
-	s.mu.Lock()
-	s.order = append(s.order, fmt.Sprintf("%d destroy/%s/%s", t, typ, p.ID()))
-	s.mu.Unlock()
+func (s *concStore) Destroy(ctx context.Context, _ resource.Type, _ resource.Pointer) error {
+	s.stamp(ctx)
 
 	return nil
 }
@@ -144,7 +144,7 @@ func (e *concEng) Trace(_ *testing.T, sc Case) (Case, []string) {
 
 	var counter atomic.Int64
 
-	bs := &concStore{counter: &counter, commits: map[string][]int64{}}
+	bs := &concStore{counter: &counter}
 
 	var st state.CoreState
 	if h["flavour"] == "inmem" {
@@ -200,8 +200,10 @@ func (e *concEng) Trace(_ *testing.T, sc Case) (Case, []string) {
 					op = "list ns=n1 typ=T1"
 				}
 
+				var commit int64
+
 				lo := counter.Add(1)
-				resp := ExecStoreOp(ctx, st, op)
+				resp := ExecStoreOp(context.WithValue(ctx, concCommitKey{}, &commit), st, op)
 				hi := counter.Add(1)
 
 				// learn versions from what came back
@@ -213,7 +215,7 @@ func (e *concEng) Trace(_ *testing.T, sc Case) (Case, []string) {
 				}
 
 				mu.Lock()
-				all = append(all, concCall{lo: lo, hi: hi, op: op, resp: concMask(resp)})
+				all = append(all, concCall{lo: lo, hi: hi, commit: commit, op: op, resp: concMask(resp)})
 				mu.Unlock()
 			}
 		}(w)
@@ -221,51 +223,18 @@ func (e *concEng) Trace(_ *testing.T, sc Case) (Case, []string) {
 
 	wg.Wait()
 
-	// attach commit stamps to the successful writes
-	destroys := map[string][]int64{}
-
-	for _, o := range bs.order {
-		var (
-			t   int64
-			key string
-		)
-
-		fmt.Sscanf(o, "%d %s", &t, &key)
-		destroys[key] = append(destroys[key], t)
-	}
-
+	// a successful write must carry the stamp of its own commit, taken inside its [invoke, response] interval; a failed
+	// call or a read must not have committed anything
 	for i := range all {
 		c := &all[i]
-		op, ar := ParseLine(c.op)
+		op, _ := ParseLine(c.op)
+		okWrite := ((op == "create" || op == "update") && strings.HasPrefix(c.resp, "ok ")) || (op == "destroy" && c.resp == "ok")
 
 		switch {
-		case (op == "create" || op == "update") && strings.HasPrefix(c.resp, "ok "):
-			// the stored version is in the response
-			ver := ""
-			if j := strings.Index(c.resp, "@"); j >= 0 {
-				ver = c.resp[j+1 : j+1+strings.IndexAny(c.resp[j+1:], "|")]
-			}
-
-			// the same (id, version) can be committed again after a destroy + create: take the stamp inside the call
-			for _, t := range bs.commits[fmt.Sprintf("put/T1/%s/%s", ar["id"], ver)] {
-				if t > c.lo && t < c.hi {
-					c.commit = t
-				}
-			}
-
-			if c.commit == 0 {
-				c.commit = -1
-			}
-		case op == "destroy" && c.resp == "ok":
-			for _, t := range destroys["destroy/T1/"+ar["id"]] {
-				if t > c.lo && t < c.hi {
-					c.commit = t
-				}
-			}
-
-			if c.commit == 0 {
-				c.commit = -1
-			}
+		case okWrite && (c.commit <= c.lo || c.commit >= c.hi):
+			c.commit = -1
+		case !okWrite && c.commit != 0:
+			c.commit = -2 // a call that reports failure (or a read) reached the backing store
 		}
 	}
 
@@ -293,6 +262,13 @@ func (e *concEng) Trace(_ *testing.T, sc Case) (Case, []string) {
 	}
 
 	for _, c := range others {
+		if c.commit == -2 {
+			derived.Ops = append(derived.Ops, fmt.Sprintf("%s lo=%d hi=%d resp=%s", c.op, c.lo, c.hi, strings.ReplaceAll(c.resp, " ", "_")))
+			outs = append(outs, "lin=FAILED-CALL-COMMITTED")
+
+			continue
+		}
+
 		if c.commit == -1 {
 			// a successful write whose commit stamp could not be recovered: treat as a broken recording
 			derived.Ops = append(derived.Ops, fmt.Sprintf("%s lo=%d hi=%d resp=%s", c.op, c.lo, c.hi, strings.ReplaceAll(c.resp, " ", "_")))
